@@ -350,8 +350,7 @@ public:
     //! lexicographically
     bool operator<(const StringView& other) const noexcept
     {
-        return std::lexicographical_compare(ptr_, ptr_ + size_, other.ptr_,
-                                            other.ptr_ + other.size_);
+        return compare(other) < 0;
     }
 
     //! Greater than
